@@ -48,7 +48,7 @@ pub fn build_spec(property: &str, tier: &str, seed: u64) -> Option<Spec> {
             ];
             Some(Spec {
                 property: "C07", level: "fault_enumeration", phases,
-                rule: "char-sweep / byte-sweep: for every document (repository corpus <= 2 KiB, hand-written extras, seeded generated documents), every length profile, every item position and every single fault kind (End, Fail, Insert x alphabet, Flip x alphabet, Drop, Dup, Swap; byte level: Cut, 8 bit flips, splices of ill-formed and notable well-formed sequences) one strict parse through a deterministically chosen entry point; seeded-search: 0-4 faults of a per-run enabled subset at positions biased to in-flight state, on corpus and generated documents up to 20k items, random delivery profile and entry point. A case is one fully explicit delivered stream (entry point, items with byte lengths, terminal event); distinct = distinct 64-bit digest of that; non-trivial = at least one injected fault lies at or before the parser's decision point (first rejected item or end of input, +1 look-ahead), i.e. the parser actually met it.".into(),
+                rule: "char-sweep / byte-sweep: for every document (repository corpus <= 2 KiB, hand-written extras, seeded generated documents), every length profile, every item position and every single fault kind (End, Fail, Insert x alphabet, Flip x alphabet, Drop, Dup, Swap; byte level: Cut, 8 bit flips, splices of ill-formed and notable well-formed sequences, and for documents with multi-byte characters every byte replaced by all 256 values) one strict parse through a deterministically chosen entry point; seeded-search: 0-4 faults of a per-run enabled subset at positions biased to in-flight state, on corpus and generated documents up to 20k items, random delivery profile and entry point. A case is one fully explicit delivered stream (entry point, items with byte lengths, terminal event); distinct = distinct 64-bit digest of that; non-trivial = at least one injected fault lies at or before the parser's decision point (first rejected item or end of input, +1 look-ahead), i.e. the parser actually met it.".into(),
                 assumptions: vec![
                     "reference viable-prefix recogniser (sim/src/stream/refpda.rs) is a faithful RFC 8259 PDA; it shares no code with the parser".into(),
                     "std::str::from_utf8 defines well-formed UTF-8 for the byte path".into(),
